@@ -1,7 +1,7 @@
 (* C02 — every frame-to-frame assignment is the global optimum (Crocker-Grier).
    Only statements closed by [exact]; proofs live in Proofs/. *)
 From Coq Require Import ZArith NArith List Permutation.
-From TP Require Import Model.Assign Model.Link Model.LinkCheck Model.Iterative Proofs.Iterative
+From TP Require Import Model.Assign Model.Link Model.LinkCheck Model.Iterative Proofs.Iterative Model.MemQueue Proofs.MemQueue
      Proofs.BnB Proofs.Opt Proofs.Cands Proofs.Comps Proofs.Connected Proofs.Step Proofs.Labels Proofs.Monitor.
 Import ListNotations.
 Open Scope Z_scope.
@@ -88,6 +88,27 @@ Theorem C02_nonrecursive_is_recursive : forall srcs,
   srcs <> [] -> nonrecursive_link (cost_full srcs) srcs = Some (solve srcs).
 Proof. exact nonrecursive_is_recursive. Qed.
 Print Assumptions C02_nonrecursive_is_recursive.
+
+(* (7) Candidate sources and memory.  Linker.apply_links keeps a set mem_set of Point
+   objects and a queue mem_history of [memory] sets (Model/MemQueue.v follows the code
+   line by line; a Point object is identified by (label, step of observation)).
+   Invariantly (qinv) mem_set = the live sources older than the previous frame, each
+   filed in the history slot of the step it was first missed; and after every step
+   mem_set is exactly the set the model keeps ([remembered]: unmatched and last seen at
+   most [memory] steps before the step just made).  Hence the sources of the next step
+   are the previous frame plus every trajectory last observed <= memory+1 steps ago. *)
+Theorem C02_memory_queue : forall m mem max_size pred st ds links q,
+  metric_ok m -> state_ok mem st -> qinv mem st q ->
+  step_links m max_size pred st ds = Ok links ->
+  (forall k, In k (q_mem (q_step mem (live st) links q)) <->
+             exists s, In s (remembered mem (now st) links 0 (live st)) /\ key_of s = k) /\
+  qinv mem (fst (apply_links mem st ds links)) (q_step mem (live st) links q).
+Proof. exact memory_queue_step. Qed.
+Print Assumptions C02_memory_queue.
+
+Theorem C02_memory_queue_init : forall mem ds, qinv mem (fst (init_state ds)) (q_init mem).
+Proof. exact qinv_init. Qed.
+Print Assumptions C02_memory_queue_init.
 
 (* non-vacuity: a 3-source subnet whose optimum differs from greedy nearest-neighbour *)
 Example C02_example :
